@@ -636,6 +636,12 @@ func (w *World) Report(peer string, upSeid uint64, cause uint8) []pfcpx.Dgram {
 		w.P4.SendDigest(ue)
 	} else {
 		_, _ = w.NotifyC.Write(b)
+
+		// the datapath reports every buffered packet: several messages for one session in quick succession are one
+		// burst of reports, far inside a notification interval
+		for i := 1; i < w.ReportCopies; i++ {
+			_, _ = w.NotifyC.Write(b)
+		}
 	}
 	got := p.WaitN(1, 150*time.Millisecond)
 	ds := p.Drain()
